@@ -1142,6 +1142,11 @@ class Explorer:
         if isinstance(e.func, ast.Name) and e.func.id == 'next' and e.args and \
                 isinstance(e.args[0], ast.GeneratorExp) and len(e.args[0].generators) == 1 and 'next' not in s.env:
             return self.ev_first_match(e, s)
+        # any(E for v in IT if C) / all(...): the equivalent scanning loop with an early exit
+        if isinstance(e.func, ast.Name) and e.func.id in ('any', 'all') and len(e.args) == 1 and not e.keywords and \
+                isinstance(e.args[0], ast.GeneratorExp) and len(e.args[0].generators) == 1 and \
+                e.func.id not in s.env:
+            return self.ev_first_match(e, s, quantifier=e.func.id)
         # call of a local lambda
         if isinstance(e.func, ast.Name) and isinstance(s.env.get(e.func.id), LambdaVal):
             lam = s.env[e.func.id]
@@ -1185,16 +1190,23 @@ class Explorer:
             out.extend(self.do_call(e, recv, args, kwargs, s2))
         return out
 
-    def ev_first_match(self, e: ast.Call, s: State):
+    def ev_first_match(self, e: ast.Call, s: State, quantifier: Optional[str] = None):
         gen = e.args[0]
         g = gen.generators[0]
         dflt = e.args[1] if len(e.args) > 1 else None
         test = None
         for c in g.ifs:
             test = c if test is None else ast.BoolOp(op=ast.And(), values=[test, c])
-        body = [ast.Return(value=gen.elt)]
+        elt = gen.elt
+        if quantifier is not None:
+            # any: first element that holds -> True, none -> False; all: first that fails -> False, none -> True
+            hit = elt if quantifier == 'any' else ast.UnaryOp(op=ast.Not(), operand=elt)
+            test = hit if test is None else ast.BoolOp(op=ast.And(), values=[test, hit])
+            elt = ast.Constant(value=(quantifier == 'any'))
+            dflt = ast.Constant(value=(quantifier != 'any'))
+        body = [ast.Return(value=elt)]
         if test is not None:
-            body = [ast.If(test=test, body=[ast.Return(value=gen.elt)], orelse=[])]
+            body = [ast.If(test=test, body=[ast.Return(value=elt)], orelse=[])]
         loop = ast.For(target=g.target, iter=g.iter, body=body, orelse=[])
         tail = ast.Return(value=dflt) if dflt is not None else \
             ast.Raise(exc=ast.Call(func=ast.Name(id='StopIteration', ctx=ast.Load()), args=[], keywords=[]), cause=None)
